@@ -21,3 +21,96 @@ package persistence
 //@   method PhaseChanged
 //@     requires recv != nil
 //@ end
+
+// ---------------------------------------------------------------------------
+// The persisting state machine (C10): machine mutation first, persist second, and the persister method that is told
+// about a change covers every machine field the operation may write.
+//
+// Which fields each persister method stores (keyvalue.PersistRestorer, proved there):
+//   Staged:       phase, staged state, all staged signature slots
+//   SigAdded(i):  staged signature slot i
+//   Enabled:      phase, staged state, all staged signature slots, current transaction
+//   PhaseChanged: phase
+// The frame (modifies) of every wrapper below is exactly the field set of the persister method it calls, so the frame
+// obligation proves that the operation writes nothing the persister is not told to store (prevTXs is a debug history that
+// is never persisted). The call-site obligation proves that the persister is called after the mutation (it sees the
+// post-state) and - as a failed operation leaves the machine unchanged (C09) - only when the operation succeeded.
+// ---------------------------------------------------------------------------
+
+//@ pred pm(m StateMachine) = m.StateMachine.machine
+//@ pred pmOK(m StateMachine) = m.StateMachine != nil && m.pr != nil && smWF(m.StateMachine)
+
+//@ func (StateMachine).Update
+//@   requires pmOK(m) && stateWF(stagingState) && (pm(m).phase == channel.Acting ==> stateWF(pm(m).currentTX.State) && pm(m).currentTX.State.Version < 18446744073709551615 && allocFor(pm(m), pm(m).currentTX.State))
+//@   modifies pm(m).phase, pm(m).stagingTX
+//@   callsite channel_persistence.Persister.Staged : payload(arg1) == m.StateMachine && pm(m).stagingTX.State == stagingState && pm(m).phase == channel.Signing && old(pm(m).phase) == channel.Acting
+//@   ensures result == nil ==> pm(m).stagingTX.State == stagingState
+
+//@ func (StateMachine).ForceUpdate
+//@   requires pmOK(m) && stagingState != nil && pm(m).currentTX.State != nil
+//@   modifies pm(m).phase, pm(m).stagingTX
+//@   callsite channel_persistence.Persister.Staged : payload(arg1) == m.StateMachine && pm(m).stagingTX.State == stagingState && pm(m).phase == channel.Signing
+
+//@ func (*StateMachine).Init
+//@   requires m != nil && pmOK(*m) && nonNilBalances(initBals.Balances) && nonNilLocked(initBals.Locked)
+//@   modifies m.StateMachine.machine.phase, m.StateMachine.machine.stagingTX
+//@   callsite channel_persistence.Persister.Staged : payload(arg1) == m.StateMachine && m.StateMachine.machine.stagingTX.State != nil && m.StateMachine.machine.phase == channel.InitSigning && old(m.StateMachine.machine.phase) == channel.InitActing
+
+//@ func (StateMachine).DiscardUpdate
+//@   requires pmOK(m)
+//@   modifies pm(m).phase, pm(m).stagingTX
+//@   callsite channel_persistence.Persister.Staged : payload(arg1) == m.StateMachine && pm(m).stagingTX.State == nil && pm(m).phase == channel.Acting && old(pm(m).phase) == channel.Signing
+
+//@ func (StateMachine).SetProgressing
+//@   requires pmOK(m) && s != nil
+//@   modifies pm(m).phase, pm(m).stagingTX
+//@   callsite channel_persistence.Persister.Staged : payload(arg1) == m.StateMachine && pm(m).stagingTX.State == s && pm(m).phase == channel.Progressing
+
+//@ func (StateMachine).Sig
+//@   requires pmOK(m)
+//@   modifies pm(m).stagingTX.Sigs[pm(m).idx]
+//@   callsite channel_persistence.Persister.SigAdded : payload(arg1) == m.StateMachine && arg2 == pm(m).idx && signing(pm(m).phase)
+
+//@ func (StateMachine).AddSig
+//@   requires pmOK(m) && idx < len(pm(m).params.Parts)
+//@   modifies pm(m).stagingTX.Sigs[idx]
+//@   callsite channel_persistence.Persister.SigAdded : payload(arg1) == m.StateMachine && arg2 == idx && pm(m).stagingTX.Sigs[idx] == sig && old(pm(m).stagingTX.Sigs[idx]) == nil
+
+//@ func (StateMachine).EnableInit
+//@   requires pmOK(m)
+//@   modifies pm(m).phase, pm(m).stagingTX, pm(m).currentTX, pm(m).prevTXs, pm(m).prevTXs[*]
+//@   callsite channel_persistence.Persister.Enabled : payload(arg1) == m.StateMachine && pm(m).currentTX.State == old(pm(m).stagingTX.State) && pm(m).stagingTX.State == nil && pm(m).phase == channel.Funding
+//@ func (StateMachine).EnableUpdate
+//@   requires pmOK(m)
+//@   modifies pm(m).phase, pm(m).stagingTX, pm(m).currentTX, pm(m).prevTXs, pm(m).prevTXs[*]
+//@   callsite channel_persistence.Persister.Enabled : payload(arg1) == m.StateMachine && pm(m).currentTX.State == old(pm(m).stagingTX.State) && pm(m).stagingTX.State == nil && pm(m).phase == channel.Acting
+//@ func (StateMachine).EnableFinal
+//@   requires pmOK(m)
+//@   modifies pm(m).phase, pm(m).stagingTX, pm(m).currentTX, pm(m).prevTXs, pm(m).prevTXs[*]
+//@   callsite channel_persistence.Persister.Enabled : payload(arg1) == m.StateMachine && pm(m).currentTX.State == old(pm(m).stagingTX.State) && pm(m).stagingTX.State == nil && pm(m).phase == channel.Final
+
+//@ func (StateMachine).SetProgressed
+//@   requires pmOK(m) && e != nil && e.State != nil
+//@   modifies pm(m).phase, pm(m).stagingTX, pm(m).currentTX, pm(m).prevTXs, pm(m).prevTXs[*]
+//@   callsite channel_persistence.Persister.Enabled : payload(arg1) == m.StateMachine && pm(m).currentTX.State == e.State && pm(m).phase == channel.Progressed
+
+//@ func (StateMachine).SetFunded
+//@   requires pmOK(m)
+//@   modifies pm(m).phase
+//@   callsite channel_persistence.Persister.PhaseChanged : payload(arg1) == m.StateMachine && pm(m).phase == channel.Acting && old(pm(m).phase) == channel.Funding
+//@ func (StateMachine).SetRegistering
+//@   requires pmOK(m)
+//@   modifies pm(m).phase
+//@   callsite channel_persistence.Persister.PhaseChanged : payload(arg1) == m.StateMachine && pm(m).phase == channel.Registering
+//@ func (StateMachine).SetRegistered
+//@   requires pmOK(m)
+//@   modifies pm(m).phase
+//@   callsite channel_persistence.Persister.PhaseChanged : payload(arg1) == m.StateMachine && pm(m).phase == channel.Registered
+//@ func (StateMachine).SetWithdrawing
+//@   requires pmOK(m)
+//@   modifies pm(m).phase
+//@   callsite channel_persistence.Persister.PhaseChanged : payload(arg1) == m.StateMachine && pm(m).phase == channel.Withdrawing
+//@ func (StateMachine).SetWithdrawn
+//@   requires pmOK(m)
+//@   modifies pm(m).phase
+//@   callsite channel_persistence.Persister.ChannelRemoved : arg1 == pm(m).params.id && pm(m).phase == channel.Withdrawn && old(pm(m).phase) == channel.Withdrawing
